@@ -57,7 +57,7 @@ Inl(on, c, s)    == [k |-> "i", on |-> on, cond |-> c, sels |-> s]
 Spr(f, c)        == [k |-> "s", frag |-> f, cond |-> c]
 
 \* the named fragments of the universe (queries files always define all of them)
-FragOn   == [FJ |-> "J", FI |-> "I", FA |-> "A", FA2 |-> "A", FU |-> "U", FD |-> "D", FInl |-> "J", FB |-> "B", FAfr |-> "A"]
+FragOn   == [FJ |-> "J", FI |-> "I", FA |-> "A", FA2 |-> "A", FU |-> "U", FD |-> "D", FInl |-> "J", FB |-> "B", FAfr |-> "A", FDo |-> "D"]
 FragSels == [FJ   |-> <<Leaf("id"), Leaf("name")>>,
              FI   |-> <<Leaf("rank")>>,
              FA   |-> <<Leaf("a1"), Leaf("tags")>>,
@@ -67,7 +67,10 @@ FragSels == [FJ   |-> <<Leaf("id"), Leaf("name")>>,
              FInl |-> <<Leaf("id"), Inl("A", "none", <<Leaf("a1")>>)>>,
              FB   |-> <<Leaf("b1")>>,
              \* a fragment whose selection holds an abstract-typed sub-field (the generator adds __typename inside it)
-             FAfr |-> <<Fld("friend", "-", "none", <<Leaf("id")>>)>>]
+             FAfr |-> <<Fld("friend", "-", "none", <<Leaf("id")>>)>>,
+             \* two levels: a fragment that spreads FAfr inside a nested field (FAfr's abstract sub-field needs __typename in
+             \* every document that reaches it, also when only a base class of a base class uses it)
+             FDo  |-> <<Fld("owner", "-", "none", <<Spr("FAfr", "none")>>)>>]
 FragNames == DOMAIN FragOn
 
 Overlaps(S, T) == Possible[S] \cap Possible[T] # {}
